@@ -174,16 +174,16 @@ def sin(x: Interval):
 
     yl = x.lo % twopi
     yh = x.hi % twopi
-    y = Interval(lo=yl, hi=yh)
+    # the reduced endpoints are not ordered when x wraps through a multiple of 2 pi
 
     sin_l = numpy_sin(yl)
     sin_h = numpy_sin(yh)
 
-    if contain(domain1, y) & (yl <= yh):
+    if contain(domain1, yl) & contain(domain1, yh) & (yl <= yh):
         return Interval(sin_l, sin_h)
-    if contain(domain2, y) & (yl <= yh):
+    if contain(domain2, yl) & contain(domain2, yh) & (yl <= yh):
         return Interval(sin_h, sin_l)
-    if contain(domain3, y) & (yl <= yh):
+    if contain(domain3, yl) & contain(domain3, yh) & (yl <= yh):
         return Interval(sin_l, sin_h)
 
     case1a = contain(domain1, yl) & contain(domain1, yh) & (yl > yh)
